@@ -3,5 +3,8 @@ CONSTANTS
   Versions <- VersionsAll
   MaxFaults = 2
   SourceVersions <- VersionsAll
-INVARIANTS TypeOK PCovers PExact PFail PSources POneBad POthers PRequired PStrict Emit
+  BatchVersions <- VersionsAll
+  BatchLens <- BatchLensThorough
+  FullRange = TRUE
+INVARIANTS TypeOK PCovers PExact PFail PSources POneBad POthers PRequired PStrict PInstants PBatchAlone PBatchAsk PBatchSane Emit
 CHECK_DEADLOCK FALSE
